@@ -96,6 +96,16 @@ def print_sheet(r, rules):
                     out.add(spell_ws(r, False))
                 x["close"] = simple("}")
                 emit_free(x["close"])
+        elif x["t"] == "declrun":
+            # every declaration of the run is closed by its semicolon (a rule may follow)
+            for d in x["decls"]:
+                for t in list(d):
+                    emit(t)
+                semi = simple(";")
+                emit_free(semi)
+                d.append(semi)
+                if r.random() < 0.3:
+                    out.add(spell_ws(r, False))
         elif x["t"] == "cdo":
             x["tok"] = T(x["which"], None, "<!--" if x["which"] == "cdo" else "-->", ws=True)
             emit(x["tok"])
@@ -349,6 +359,11 @@ def expected(rules, opts):
                 continue
             if x["t"] == "cdo":
                 outs[0].append(E(x["which"], src=x["tok"]))
+                continue
+            if x["t"] == "declrun":
+                state["only_imports"] = False
+                state["only_layer_statements"] = False
+                conv_decls(x["decls"], outs[0])
                 continue
             # (inside a group rule, only the rules that precede the group rule count as "other rules before")
             before = state["only_imports"]
